@@ -10,19 +10,19 @@ import (
 )
 
 var commands = map[string]func([]string) error{
-	"store":    cmdStore,
-	"crash":    cmdCrash,
-	"conc":     cmdConc,
-	"smtp":     cmdSMTP,
-	"rest":     cmdRest,
-	"sanitize": cmdSanitize,
-	"pop3":     cmdPOP3,
-	"naming":   cmdNaming,
-	"wild":     cmdWild,
+	"store":     cmdStore,
+	"crash":     cmdCrash,
+	"conc":      cmdConc,
+	"smtp":      cmdSMTP,
+	"rest":      cmdRest,
+	"sanitize":  cmdSanitize,
+	"pop3":      cmdPOP3,
+	"naming":    cmdNaming,
+	"wild":      cmdWild,
 	"retention": cmdRetention,
 	"lifecycle": cmdLifecycle,
-	"dotcodec": cmdDotCodec,
-	"hub":      cmdHub,
+	"dotcodec":  cmdDotCodec,
+	"hub":       cmdHub,
 }
 
 func main() {
